@@ -89,7 +89,7 @@ def stepIid (fam : String) (dim : Nat) (modes : String) (x p1 p2 p3 : List Rat) 
       if uniformOutside x p1 p2 then "-inf" else
       let ml := modeAt modes 0; let mh := modeAt modes 1
       if uniformListRaises (ml = 'l') (mh = 'l') (ml = 'a') (mh = 'a') then "raise" else
-      let v := uniformVolCode dim (ml = 's' && mh = 's') p1 p2
+      let v := uniformVolCode dim p1 p2
       out .formula (evF (fun _ => rf v) (uniformLogpdf v0))
   | "uniformdoc" =>
       if !(bcOk x [p1, p2]) then "raise" else
